@@ -431,7 +431,7 @@ func init() {
 		Run:           c05Run,
 		MinNontrivial: 300,
 		RaceCases:     100000,
-		Rule: "case k decodes to the exhaustive product: 18 option types (scalars, pointers, slices, slice of pointers, maps, Duration, Unmarshalers incl. a bool-kinded and an appending one, bool, []bool counting flag, func(string) callback) x pre-stored value {absent, present} x default tags {0,1,2} x environment {unset, set, set-but-empty} x INI {none, normal before CLI, as-defaults before CLI, as-defaults after CLI} x command-line occurrences {0,1,2} x home {root, group with env-namespace, doubly nested, sub-command}; random values, env-delim {none , ;}, 4 env-namespace delimiters, env keys / inner namespaces / long names that happen to start with their own namespace and delimiter, section names in random case, INI key by field name or namespaced long name, 1-3 entries for multi-valued options. " +
+		Rule: "1 case in 16: a parser built through the API only (NewNamedParser, AddGroup with env namespace, 1-3 options registered with AddOption carrying Default / EnvDefaultKey / EnvDefaultDelim, lists and maps with pre-existing content): command line > environment > Default > stored content, judged on the program's own variables. case k decodes to the exhaustive product: 18 option types (scalars, pointers, slices, slice of pointers, maps, Duration, Unmarshalers incl. a bool-kinded and an appending one, bool, []bool counting flag, func(string) callback) x pre-stored value {absent, present} x default tags {0,1,2} x environment {unset, set, set-but-empty} x INI {none, normal before CLI, as-defaults before CLI, as-defaults after CLI} x command-line occurrences {0,1,2} x home {root, group with env-namespace, doubly nested, sub-command}; random values, env-delim {none , ;}, 4 env-namespace delimiters, env keys / inner namespaces / long names that happen to start with their own namespace and delimiter, section names in random case, INI key by field name or namespaced long name, 1-3 entries for multi-valued options. " +
 			"Oracle: the field equals exactly the reference conversion of the values of the highest-ranked source present (CLI > INI > env > default tags > pre-stored); an unrelated option keeps its default. Non-trivial = judged cell; distinct = (type, top source, INI mode, full source subset, home, delimiter, #values). The cases after the product are histories: [parse or help, rename an env-namespace / change the env-namespace delimiter, export the variable under its new name, parse] compared with a fresh parser of the changed declaration.",
 		Assumptions: []string{"set-but-empty environment variables are unspecified (the unchanged code treats them as providing \"\")", "normal-mode INI read after the command line is not ranked by the statement and is not generated", "callback options are judged without INI (the callback runs for the values of the highest-ranked of command line / environment / default tags)"},
 		Technique:   "runtime reference-model monitor over the exhaustive product of value sources, real environment variables and INI readers; race detector on a concurrent re-run with disjoint env keys (thorough); metamorphic history monitor ([use, change of the public model, use] on one parser vs. a fresh parser of the changed declaration); ownership monitor on the lists and maps the program stored into option fields before parsing",
